@@ -851,6 +851,9 @@ func main() {
 	})
 	ctx.Jobs("signatures", n, func(j int) { signatureSpace(j) })
 	ctx.Jobs("events", 7*len(resolutions), func(j int) { eventSpace(j/len(resolutions), resolutions[j%len(resolutions)]) })
+	if !ctx.IsChild() {
+		ctx.RacePairs("export")
+	}
 	ctx.Jobs("long-songs", 1, func(int) { longSongs() })
 	ctx.Set("signatures", n)
 	ctx.Sample(map[string]interface{}{"song": "bars 6/8, 9/8, 12/8; note on track 7 at the last 32nd of bar 2 lasting across the bar line", "resolution": 96})
